@@ -33,16 +33,17 @@ var repoDir = func() string {
 
 // Build is the result of preparing a scratch copy of /repo's working tree.
 type Build struct {
-	Dir      string // scratch root (removed by Cleanup)
-	Src      string // rewritten module copy
-	Bin      string // directory of built binaries
-	SimTest  string // test binary of package main (root)
-	TBTest   string // test binary of cmd/thriftbreak
-	Seam     *seam.Report
-	Registry int // generated types in the registry
-	Wall     map[string]float64
-	Race     bool
-	Dropped  []string // regenerated packages dropped because they do not compile
+	Dir           string // scratch root (removed by Cleanup)
+	Src           string // rewritten module copy
+	Bin           string // directory of built binaries
+	SimTest       string // test binary of package main (root)
+	TBTest        string // test binary of cmd/thriftbreak
+	Seam          *seam.Report
+	Registry      int // generated types in the registry
+	Wall          map[string]float64
+	Race          bool
+	Dropped       []string // regenerated packages dropped because they do not compile
+	RandomSchemas int
 }
 
 func goEnv() []string {
@@ -76,12 +77,13 @@ func tail(s string, n int) string {
 }
 
 type buildOpts struct {
-	Tag       string // scratch directory tag
-	Race      bool
-	NeedTB    bool // also build cmd/thriftbreak test binary
-	NeedRoot  bool
-	ExtraSeed uint64 // thorough: seeded random schemas (0 = none)
-	Corpus    bool   // regenerate the schema corpus (only the wire-world checks over generated code need it)
+	Tag           string // scratch directory tag
+	Race          bool
+	NeedTB        bool // also build cmd/thriftbreak test binary
+	NeedRoot      bool
+	ExtraSeed     uint64 // thorough: seeded random schemas (0 = none)
+	Corpus        bool   // regenerate the schema corpus (only the wire-world checks over generated code need it)
+	RandomSchemas int    // seeded random programs added to the corpus (thorough tier)
 }
 
 // PrepareBuild copies /repo's current working tree, regenerates the schema
@@ -116,6 +118,15 @@ func PrepareBuild(o buildOpts) (*Build, error) {
 	}
 	lap("build-generator")
 
+	// 3a. harness overlay
+	if out, err := runCmd("/", env, "rsync", "-a", filepath.Join(verifDir, "overlay")+"/", b.Src+"/"); err != nil {
+		return b, fmt.Errorf("overlay: %v %s", err, out)
+	}
+	if err := patchGoMod(b.Src); err != nil {
+		return b, err
+	}
+	lap("overlay-copy")
+
 	// 3. regenerate corpus
 	genRoot := filepath.Join(b.Src, "internal", "zzsim", "gen")
 	type corpus struct {
@@ -139,6 +150,22 @@ func PrepareBuild(o buildOpts) (*Build, error) {
 	if !o.Corpus {
 		corpora = nil
 	}
+	if o.Corpus && o.RandomSchemas > 0 {
+		// seeded random programs, emitted by the harness's own generator
+		rdir := filepath.Join(b.Dir, "random-schemas")
+		outp, err := runCmd(b.Src, env, "go", "run", "./internal/zzsim/cmd/emitschemas", "-seed", fmt.Sprint(o.ExtraSeed), "-n", fmt.Sprint(o.RandomSchemas), "-out", rdir)
+		if err != nil {
+			return b, fmt.Errorf("emit random schemas: %v", err)
+		}
+		for i, line := range strings.Split(strings.TrimSpace(outp), "\n") {
+			f := strings.Split(line, "\t")
+			if len(f) != 2 {
+				continue
+			}
+			corpora = append(corpora, corpus{fmt.Sprintf("r%d", i), f[0], []string{f[1]}})
+		}
+		b.RandomSchemas = o.RandomSchemas
+	}
 	for _, c := range corpora {
 		out := filepath.Join(genRoot, c.sub)
 		os.MkdirAll(out, 0755)
@@ -153,19 +180,18 @@ func PrepareBuild(o buildOpts) (*Build, error) {
 			}
 			args = append(args, f)
 			if o, err := runCmd(b.Src, env, gen, args...); err != nil {
+				if strings.HasPrefix(c.sub, "r") {
+					b.Dropped = append(b.Dropped, "random schema "+c.sub+" (generator rejected it)")
+					os.RemoveAll(out)
+					continue
+				}
 				return b, fmt.Errorf("regenerate %s: %v %s", f, err, o)
 			}
 		}
 	}
 	lap("regenerate")
 
-	// 4. overlay + registry
-	if out, err := runCmd("/", env, "rsync", "-a", filepath.Join(verifDir, "overlay")+"/", b.Src+"/"); err != nil {
-		return b, fmt.Errorf("overlay: %v %s", err, out)
-	}
-	if err := patchGoMod(b.Src); err != nil {
-		return b, err
-	}
+	// 4. registry
 	if o.Corpus {
 		// A regenerated package that does not compile is C06's territory, not a
 		// reason to lose this check: drop it (recorded in the evidence) and go on.
